@@ -214,7 +214,10 @@ func leanStr(s string) string {
 		case r == '\\':
 			sb.WriteString("\\\\")
 		case r < 32 || r > 126:
-			sb.WriteString(fmt.Sprintf("\\u{%x}", r))
+			if r > 0xffff {
+				die("cannot render rune %x in a Lean string literal", r)
+			}
+			sb.WriteString(fmt.Sprintf("\\u%04x", r))
 		default:
 			sb.WriteRune(r)
 		}
